@@ -233,9 +233,12 @@ prop("C06",
 prop("C17",
      outside="protobuf decoding (unknown fields), the chunk_data_offset + archive_offset addition inside try_init, real decompression, HTTP body accumulation; more than 2 descriptors",
      assumptions=[])
-h("c06_chunk_stream_step", ["C06", "C17"], "quick", "2 descriptors: archive offsets any u64 (any order/gaps/overlap), stored and source sizes 1..4; clone index any subset; archive-wide compression none/brotli",
-  "read_chunks receives exactly the descriptors still in the clone index, each once, in descriptor order, (offset,size) verbatim; nothing else is read; item i carries descriptor i's checksum; raw iff stored size == source size else the archive-wide algorithm",
-  ["Archive::chunk_stream", "ChunkIndex::contains", "StreamUntilFirstError::poll_next"], [MODEL_MAP, "recording ArchiveReader mock that answers each range with a slice of the requested length"])
+for nm, u in (("both_raw_comp", "quick"), ("both_comp_raw", "quick"), ("both_nocomp", "quick"), ("first_only", "quick"),
+              ("second_only", "quick"), ("second_only_raw", "quick"), ("none", "quick")):
+    h("c06_chunk_stream_" + nm, ["C06", "C17"], u,
+      "2 descriptors; which of them the clone index still wants, stored/source sizes and the archive-wide compression as in the name (concrete); archive offsets: ANY u64 each (any order/gaps/overlap)",
+      "read_chunks receives exactly the descriptors still in the clone index, each once, in descriptor order, (offset,size) verbatim; nothing else is read; item i carries descriptor i's checksum; raw iff stored size == source size else the archive-wide algorithm",
+      ["Archive::chunk_stream", "ChunkIndex::contains", "StreamUntilFirstError::poll_next"], [MODEL_MAP, "recording ArchiveReader mock that answers each range with a slice of the requested length"])
 h("c17_pre_header_magics", ["C17", "C15"], "quick", "every byte string of length 0..16", "verify_pre_header accepts exactly b\"BITA1\\0\" and the legacy b\"\\0BITA1\" prefixes, rejects everything else (incl. < 6 bytes) without panicking", ["Archive::verify_pre_header"])
 
 # ---------------------------------------------------------------------------
@@ -288,3 +291,24 @@ h("c15_accepted_params_arith_full_width", ["C15"], "quick", "all parameters any 
   "for every ACCEPTED parameter set: mask(), hash_input_limit and info's chunk_target_average do not overflow; window in 1..=max, min<=max", ["chunker_config_from_params", "RollingHashChunker::new", "FilterBits::mask", "FilterBits::chunk_target_average"])
 h("c15_rollsum_arith_any_window", ["C15"], "quick", "window: any value 1..=u32::MAX (symbolic-size allocation, not touched)", "RollSum::new and one input never overflow (finding F13, fixed)", RS)
 h("c08_io_zero_size_range", ["C15", "C08"], "quick", "one zero-length range after a previous chunk of 0..3 bytes", "a zero-length range yields zero bytes, not the previous chunk's", IOR, [MOCK_IO])
+
+# ---------------------------------------------------------------------------
+# C09 streaming wrapper: scenario runs (every length concrete, every source byte symbolic)
+# ---------------------------------------------------------------------------
+STREAM = ["StreamingChunker::new", "StreamingChunker::poll_next", "FixedSizeChunker::next"]
+REFILL8 = "REFILL_SIZE scaled from 1 MiB to 8 in the mirror (cfg(kani)); a 1 MiB buffer object crashes CBMC"
+for nm, d, u in (("a", "7 bytes, fixed size 3, reads 2,Pending,3,2,EOF", "quick"), ("c", "5 bytes, fixed size 2, one byte per read with a Pending before each", "quick"),
+                 ("e", "empty source", "quick"), ("b", "6 bytes, fixed size 3 (no tail), reads 3,3,EOF", "thorough")):
+    h("c09_stream_run_" + nm, ["C09"], u, d + "; every source byte symbolic",
+      "the whole multi-poll run of the streaming wrapper over the real FixedSizeChunker: offsets contiguous from 0, every item exactly the source bytes at its offset, every chunk but the last of the fixed size, the chunks tile the source, then end of stream",
+      STREAM, [REFILL8])
+MARKER_QUICK = ['c09_stream_marker_p00_r23', 'c09_stream_marker_p00_r1p22', 'c09_stream_marker_p00_r32', 'c09_stream_marker_p02_r1p22', 'c09_stream_marker_p04_r23', 'c09_stream_marker_p04_r1p22', 'c09_stream_marker_p06_r1p22', 'c09_stream_marker_p08_r23', 'c09_stream_marker_p08_r1p22', 'c09_stream_marker_p08_r32', 'c09_stream_marker_p10_r1p22', 'c09_stream_marker_p12_r23', 'c09_stream_marker_p12_r1p22', 'c09_stream_marker_p14_r1p22', 'c09_stream_marker_p16_r23', 'c09_stream_marker_p16_r1p22', 'c09_stream_marker_p16_r32', 'c09_stream_marker_p18_r1p22', 'c09_stream_marker_p20_r23', 'c09_stream_marker_p20_r1p22', 'c09_stream_marker_p22_r1p22', 'c09_stream_marker_p24_r23', 'c09_stream_marker_p24_r1p22', 'c09_stream_marker_p24_r32', 'c09_stream_marker_p26_r1p22', 'c09_stream_marker_p28_r23', 'c09_stream_marker_p28_r1p22', 'c09_stream_marker_p30_r1p22']
+MARKER_SLOW = ['c09_stream_marker_p18_r23', 'c09_stream_marker_p19_r23', 'c09_stream_marker_p20_r32', 'c09_stream_marker_p21_r32', 'c09_stream_marker_p22_r32', 'c09_stream_marker_p23_r32']
+for nm in MARKER_QUICK + MARKER_SLOW:
+    pat = int(nm.split("_p")[1][:2])
+    sc = {"r23": "reads 2,3,EOF", "r1p22": "reads 1,Pending,2,2,EOF", "r32": "reads 3,2,EOF"}[nm.split("_")[-1]]
+    ends = [j + 1 for j in range(5) if pat & (1 << j) or j == 4]
+    h(nm, ["C09"], "quick" if nm in MARKER_QUICK else "thorough",
+      "5 symbolic source bytes; a chunker that puts its boundaries after stream positions %s (stands for any content-defined chunker on any content with those boundaries; a function of stream position and buffer length only); %s" % (ends, sc),
+      "the streaming wrapper reproduces exactly those boundaries whatever the read script: offsets contiguous, item bytes == source bytes, tail once, then end (34 of the 96 placement x script combinations finish; the others run out of memory and are not registered)",
+      ["StreamingChunker::new", "StreamingChunker::poll_next"], [REFILL8])
